@@ -111,13 +111,13 @@ def mk_item(iid, slug=None, obj_id=None, mos_id=None, obj_type=None, note=None,
     if id_first and idtag is not None:
         it.append(idtag)
     if slug is not None:
-        it.append(T('itemSlug', slug))
+        it.append(T('itemSlug', slug or None))
     if obj_id is not None:
-        it.append(T('objID', obj_id))
+        it.append(T('objID', obj_id or None))
     if mos_id is not None:
-        it.append(T('mosID', mos_id))
+        it.append(T('mosID', mos_id or None))
     if obj_type is not None:
-        it.append(T('objType', obj_type))
+        it.append(T('objType', obj_type or None))
     if not id_first and idtag is not None:
         it.append(idtag)
     if note is not None:
@@ -130,6 +130,8 @@ def mk_item(iid, slug=None, obj_id=None, mos_id=None, obj_type=None, note=None,
             elif kind == 'nested':
                 md.append(E('mosPayload', E('wrapper', E(
                     'studioCommand', T('text', text), attrib={'type': 'note'}))))
+            elif kind == 'note-no-text':
+                md.append(E('mosPayload', E('studioCommand', attrib={'type': 'note'})))
             elif kind == 'other':
                 md.append(E('mosPayload', E('studioCommand', T('text', text),
                                             attrib={'type': 'cue'})))
